@@ -12,7 +12,7 @@ PROP = dict(
                nontrivial=r"^(form|reorg|append|revise)", min_ops=5, min_kinds=3,
                quick=dict(n=64, len=14, shards=8, timeout=400), thorough=dict(n=1600, len=18, shards=16, timeout=1700))],
     flag_filter=r"^c06/",
-    quick=dict(n=96, len=40, shards=8, timeout=300),
+    quick=dict(n=384, len=40, shards=16, timeout=300),
     thorough=dict(n=4000, len=60, shards=16, timeout=1700),
     nontrivial=r"^actions .*=\[\d", min_ops=10, min_kinds=3,
     shrink_budget=80,
